@@ -135,6 +135,26 @@ func runCheck(id, tier string) (code int) {
 	for _, m := range ctx.A.Missing {
 		rep.Fatal("unresolved anchor: %s", m)
 	}
+	if tier == "thorough" {
+		// the same rules over the program as built for other targets (build-constrained files, 32-bit int):
+		// obligations with the same key keep their worst status
+		archs := []string{"arm64", "386"}
+		done := []string{"amd64"}
+		for _, arch := range archs {
+			p2, err := core.Load(core.RepoDir(), arch)
+			if err != nil {
+				rep.Fatal("cannot load %s for GOARCH=%s: %v", core.RepoDir(), arch, err)
+				continue
+			}
+			c2 := &props.Ctx{P: p2, R: rep, Tier: tier, A: &core.Anchors{P: p2}}
+			chk.Run(c2)
+			for _, m := range c2.A.Missing {
+				rep.Fatal("unresolved anchor (GOARCH=%s): %s", arch, m)
+			}
+			done = append(done, arch)
+		}
+		rep.Extra["targets_analysed"] = done
+	}
 	return rep.Finish()
 }
 
